@@ -835,6 +835,53 @@ func runC16(w *World, r *Report) {
 	}
 
 	shareRule(w, r, "C16.option-lists-are-copied", "an option list handed on is never appended to in place: what GetComposeOptions returns and what the agents append their own options to is a slice of its own, or the option list of one call ends up in storage another call reads", 1, "C09", "C09.append-alias")
+	r.Rule("C16.concurrent-option-lists-clipped", "an option list handed to several inner calls that run at the same time (the retriever flows' concurrent Retrieve calls) is handed over without its spare capacity (opts[:len:len]) or as a list of the call's own: an inner component that appends a default option to its list must not write into the slot its siblings read (the ToolsNode does the same for tool calls, C17.parallel-protocol)", 1)
+	{
+		n := 0
+		for _, fn := range w.RepoFuncs("flow/retriever") {
+			// calls made on a goroutine of their own: the function literal of a go statement
+			isGoLit := false
+			if p := fn.Parent(); p != nil {
+				instrs(p, func(in ssa.Instruction) {
+					if g, ok := in.(*ssa.Go); ok {
+						if mc, isMC := g.Call.Value.(*ssa.MakeClosure); isMC && mc.Fn == ssa.Value(fn) {
+							isGoLit = true
+						}
+						if f2, isF := g.Call.Value.(*ssa.Function); isF && f2 == fn {
+							isGoLit = true
+						}
+					}
+				})
+			}
+			if !isGoLit {
+				continue
+			}
+			instrs(fn, func(in ssa.Instruction) {
+				c, ok := in.(*ssa.Call)
+				if !ok || !c.Call.IsInvoke() || len(c.Call.Args) == 0 {
+					return
+				}
+				last := c.Call.Args[len(c.Call.Args)-1]
+				sl, isSl := last.Type().Underlying().(*types.Slice)
+				if !isSl || namedOf(sl.Elem()) == nil || namedOf(sl.Elem()).Obj().Name() != "Option" {
+					return
+				}
+				n++
+				clipped := false
+				switch x := last.(type) {
+				case *ssa.Slice:
+					clipped = x.Max != nil
+				case *ssa.MakeSlice:
+					clipped = true
+				}
+				r.Check(clipped, "C16.concurrent-option-lists-clipped", fmt.Sprintf("%s: option list of the concurrent %s call", w.fname(fn), c.Call.Method.Name()), c.Pos(), "opts[:len(opts):len(opts)] / a list of its own", "every concurrent inner call is handed the caller's option slice with its spare capacity: an inner retriever that appends an option to its list writes into the slot its siblings use — called directly with a list that has spare capacity, every inner call of the router / multi-query retriever ends up with the last writer's option (and it is a data race)")
+			})
+		}
+		if n == 0 {
+			undecidedf("C16.concurrent-option-lists-clipped: no concurrent inner call with an option list found in flow/retriever")
+		}
+	}
+
 	// ---- convert-option
 	r.Rule("C16.convert-option", "convertOption: comma-ok assertion, mismatch returns an error (no success return is reachable from the failed assertion)", 2)
 	co := w.Fn("compose", "convertOption")
